@@ -232,6 +232,29 @@ func unmarshalFamily(c *seq.Ctx) {
 			unmarshalOne(c, []byte{byte(a), byte(b)})
 		}
 	}
+	if !c.Quick() {
+		// thorough: every 3-byte string, and every 4-byte string over a 16-byte alphabet
+		for a := 0; a < 256; a++ {
+			for b := 0; b < 256; b++ {
+				for d := 0; d < 256; d++ {
+					unmarshalOne(c, []byte{byte(a), byte(b), byte(d)})
+				}
+			}
+			if c.Expired() {
+				return
+			}
+		}
+		al16 := []byte{0x00, 0x01, 0x02, 0x03, 0x04, 0x05, 0x3f, 0x40, 0x7f, 0x80, 0xfe, 0xff, 0x10, 0x20, 0xc0, 0xfd}
+		for _, a := range al16 {
+			for _, b := range al16 {
+				for _, d := range al16 {
+					for _, e := range al16 {
+						unmarshalOne(c, []byte{a, b, d, e})
+					}
+				}
+			}
+		}
+	}
 	al := []byte{0x00, 0x01, 0x03, 0x04, 0x80, 0xff}
 	for _, a := range al {
 		for _, b := range al {
@@ -331,7 +354,19 @@ func blocksI64(c *seq.Ctx) {
 					members[u] = true
 				}
 			}
-			for _, u := range []int64{-1, math.MinInt64, math.MaxInt64, math.MaxUint32 * 1024, math.MaxUint32*1024 + 5} {
+			outOfRange := []int64{-1, math.MinInt64, math.MaxInt64, math.MaxUint32 * 1024, math.MaxUint32*1024 + 5}
+			// out-of-range values that alias a member of this block when the block number is truncated to
+			// 32 bits (v + j*2^42) or the value to 32/48 bits
+			for _, j := range []int64{1, 2, 3, 1 << 10, 1<<21 - 1} {
+				if a := v + j<<42; a > 0 {
+					outOfRange = append(outOfRange, a, a+1, a-1)
+				}
+			}
+			outOfRange = append(outOfRange, v-(1<<42), v+1<<48, v|1<<62)
+			for _, u := range outOfRange {
+				if u >= 0 && u < math.MaxUint32*1024 {
+					continue
+				}
 				if e := b.SetI64(u); bad == "" && e == nil {
 					bad, sig = fmt.Sprintf("SetI64(%d) accepted an out-of-range value", u), "BigU32.SetI64 accepts out-of-range value"
 				}
